@@ -532,6 +532,59 @@ VARIANTS = [
     {"name": "P R4 subfield decode guard names KeyError and Exception", "file": LOGR, "expect": "silent",
      "old": "                            deserialized = block.deserialize_var(var_name)\n                        except Exception:",
      "new": "                            deserialized = block.deserialize_var(var_name)\n                        except (KeyError, Exception):"},
+    # ---- second audit round (anchored on the fixed text: inapplicable until the fixes are committed)
+    {"name": "R4 matches walks the blocks of an unparsable message unguarded (reverts audit2 fix #1)", "file": LOGR, "expect": "C18.R4",
+     "old": "        try:\n            # Parses the body if that hasn't happened yet\n            block_names = list(message.blocks)\n"
+            "        except Exception:\n            # The body doesn't parse, so there are no fields a comparison could be true of\n"
+            "            return MatchResult(False, [])\n",
+     "new": "        block_names = list(message.blocks)\n"},
+    {"name": "P R4 body parse guarded through ensure_parsed style touch", "file": LOGR, "expect": "silent",
+     "old": "        try:\n            # Parses the body if that hasn't happened yet\n            block_names = list(message.blocks)\n"
+            "        except Exception:\n",
+     "new": "        try:\n            block_names = tuple(message.blocks.keys())\n        except BaseException:\n"},
+    {"name": "R6 extended dict no longer carries the trailer (reverts audit2 fix #3)", "expect": "C18.R6", "edits": [
+        {"file": MSG, "old": "                \"trailer\": self.raw_trailer,\n", "new": ""},
+        {"file": MSG, "old": "            # Not present in anything exported before the trailer was kept at all\n"
+                             "            msg.raw_trailer = dict_val.get('trailer', b\"\")\n", "new": ""}]},
+    {"name": "R6 trailer exported but never read back", "file": MSG, "expect": "C18.R6",
+     "old": "            msg.raw_trailer = dict_val.get('trailer', b\"\")\n", "new": ""},
+    {"name": "P R6 trailer read with an explicit membership test", "file": MSG, "expect": "silent",
+     "old": "            msg.raw_trailer = dict_val.get('trailer', b\"\")\n",
+     "new": "            if 'trailer' in dict_val:\n                msg.raw_trailer = dict_val['trailer']\n"},
+    {"name": "R8 an already frozen entry is frozen again (reverts audit2 fix #4)", "file": LOGR, "expect": "C18.R8",
+     "old": "        if self._message is None:\n            # Already frozen, the pickle we have is the logged message\n            return\n", "new": ""},
+    {"name": "P R8 freeze pickles the message it just obtained", "expect": "silent", "edits": [
+        {"file": LOGR, "old": "        if self._message is None:\n            # Already frozen, the pickle we have is the logged message\n            return\n", "new": ""},
+        {"file": LOGR, "old": "self._frozen_message = pickle.dumps(self._message, protocol=pickle.HIGHEST_PROTOCOL)",
+         "new": "self._frozen_message = pickle.dumps(message, protocol=pickle.HIGHEST_PROTOCOL)"}]},
+    {"name": "R6 HTTP summary parses the body unguarded (reverts audit2 fix #5)", "file": LOGR, "expect": "C18.R6",
+     "old": "            try:\n                notation = llsd.format_notation(llsd.parse(msg.content))\n"
+            "                self._summary += notation.decode(\"utf8\")[:500]\n            except Exception:\n"
+            "                # Labelled LLSD but isn't, the status alone will have to do\n                pass\n",
+     "new": "            notation = llsd.format_notation(llsd.parse(msg.content))\n            self._summary += notation.decode(\"utf8\")[:500]\n"},
+    {"name": "P R6 HTTP summary parse guarded with a logged handler", "file": LOGR, "expect": "silent",
+     "old": "            except Exception:\n                # Labelled LLSD but isn't, the status alone will have to do\n                pass\n",
+     "new": "            except Exception:\n                LOG.debug('response labelled LLSD does not parse')\n"},
+    # ---- refactor round 8 mechanisms
+    {"name": "P parser built in a helper that compile_filter calls", "file": FILT, "expect": "silent",
+     "old": "    parser = ParserPython(message_filter)\n    parse_tree = parser.parse(filter_str)\n"
+            "    return visit_parse_tree(parse_tree, MessageFilterVisitor())",
+     "new": "    return visit_parse_tree(_parse(filter_str), MessageFilterVisitor())\n\n\n"
+            "def _parse(filter_str, debug=False):\n    return ParserPython(message_filter, debug=debug).parse(filter_str)"},
+    {"name": "P import dispatch through a per-entry helper", "file": LOGR, "expect": "silent",
+     "old": "    return [_TYPE_CLASSES[e['type']].from_dict(e) for e in entries]",
+     "new": "    return [_entry_from_dict(e) for e in entries]\n\n\ndef _entry_from_dict(val: dict):\n"
+            "    return _TYPE_CLASSES[val['type']].from_dict(val)"},
+    {"name": "R6 import helper dispatches on a key the export never writes", "file": LOGR, "expect": "C18.R6",
+     "old": "    return [_TYPE_CLASSES[e['type']].from_dict(e) for e in entries]",
+     "new": "    return [_entry_from_dict(e) for e in entries]\n\n\ndef _entry_from_dict(val: dict):\n"
+            "    return _TYPE_CLASSES[val['kind']].from_dict(val)"},
+    {"name": "P meta UUID keys (de)hydrated from one shared table", "expect": "silent", "edits": [
+        {"file": LOGR, "old": "        _dehydrate_meta_uuid(\"AgentID\")\n        _dehydrate_meta_uuid(\"SelectedFull\")\n        _dehydrate_meta_uuid(\"SessionID\")\n",
+         "new": "        for uuid_key in _UUID_META:\n            _dehydrate_meta_uuid(uuid_key)\n"},
+        {"file": LOGR, "old": "        _hydrate_meta_uuid(\"AgentID\")\n        _hydrate_meta_uuid(\"SelectedFull\")\n        _hydrate_meta_uuid(\"SessionID\")\n",
+         "new": "        for uuid_key in _UUID_META:\n            _hydrate_meta_uuid(uuid_key)\n"},
+        {"file": LOGR, "old": "class BaseMessageLogger:\n", "new": "_UUID_META = (\"AgentID\", \"SelectedFull\", \"SessionID\")\n\n\nclass BaseMessageLogger:\n"}]},
     # ---- documented limits
     {"name": "X bare selector matches on the raw value instead of truthiness", "file": LOGR, "expect": "miss",
      "old": "                return bool(val)\n", "new": "                return val is not None\n"},
